@@ -1,4 +1,5 @@
 (* allow-axioms:  *)
+From RRE Require Model.StreamAlpha Proofs.StreamAlphaProofs.
 From RRE Require Import Base.Sx Base.Float Model.Window Proofs.WindowProofs.
 Open Scope N_scope.
 From RRE Require Import Properties.C12.
@@ -18,3 +19,11 @@ Check (C12_tumbling_one_window_per_interval : forall dur cap ws e,
   NoDup (map w_start ws) ->
   NoDup (map w_start (group_add dur cap ws e)) /\
   (forall s, In s (map w_start (group_add dur cap ws e)) <-> In s (map w_start ws) \/ s = (ets e / dur) * dur)).
+Check (C12_alpha_accepted_iff : forall kind d maxn now nd id ts s t,
+  snd (StreamAlpha.process kind d maxn now nd id ts s t) = s && t && StreamAlpha.in_window kind d now ts).
+Check (C12_alpha_nothing_before_the_window : forall kind d maxn now nd id ts s t nd',
+  StreamAlpha.process kind d maxn now nd id ts s t = (nd', true) ->
+  forall e, In e (StreamAlpha.n_events nd') -> (StreamAlphaProofs.lower kind d now <= snd e)%N).
+Check (C12_alpha_buffer_only_shrinks : forall kind d maxn now nd id ts s t nd' b,
+  StreamAlpha.process kind d maxn now nd id ts s t = (nd', b) ->
+  forall e, In e (StreamAlpha.n_events nd') -> In e (StreamAlpha.n_events nd) \/ (b = true /\ e = (id, ts))).
